@@ -446,6 +446,158 @@ func (p *Program) optionalNodeFields() map[string]string {
 	return out
 }
 
+// optionalForWalk: the optional fields, and (iv) the fields of a node that a production can hand back together with
+// a nil error before it has stored them - a literal held in a variable, a `return v, nil` further down, and no
+// store of v.F on the way that every path to that return passes. The traversal has to expect those empty too,
+// whatever the consumers of the tree do about them.
+func (p *Program) optionalForWalk() map[string]string {
+	out := map[string]string{}
+	for k, v := range p.optionalNodeFields() {
+		out[k] = v
+	}
+	info := p.Parser.TypesInfo
+	node := p.Iface(p.Parser, "Node")
+	for _, fd := range AllFuncs(p.Parser) {
+		if fd.Body == nil {
+			continue
+		}
+		ast.Inspect(fd.Body, func(n ast.Node) bool {
+			as, ok := n.(*ast.AssignStmt)
+			if !ok || len(as.Lhs) != len(as.Rhs) {
+				return true
+			}
+			for i, rhs := range as.Rhs {
+				cl := litOf(rhs)
+				if cl == nil {
+					continue
+				}
+				lt := info.TypeOf(cl)
+				st := StructOf(lt)
+				holder := objOf(info, as.Lhs[i])
+				if st == nil || holder == nil || !(types.Implements(types.NewPointer(lt), node) || types.Implements(lt, node)) {
+					continue
+				}
+				set := map[*types.Var]bool{}
+				positional := false
+				for _, el := range cl.Elts {
+					if kv, ok := el.(*ast.KeyValueExpr); ok {
+						if f, _ := objOf(info, kv.Key).(*types.Var); f != nil && !isNilIdent(info, kv.Value) {
+							set[f] = true
+						}
+					} else {
+						positional = true
+					}
+				}
+				if positional {
+					continue
+				}
+				// the successful returns of the holder after the literal
+				ast.Inspect(fd.Body, func(m ast.Node) bool {
+					if _, isLit := m.(*ast.FuncLit); isLit {
+						return false
+					}
+					ret, isRet := m.(*ast.ReturnStmt)
+					if !isRet || ret.Pos() < as.End() || len(ret.Results) < 2 {
+						return true
+					}
+					if !isNilIdent(info, ret.Results[len(ret.Results)-1]) {
+						return true
+					}
+					gives := false
+					for _, rx := range ret.Results[:len(ret.Results)-1] {
+						if objOf(info, rx) == holder {
+							gives = true
+						}
+					}
+					if !gives {
+						return true
+					}
+					for fi := 0; fi < st.NumFields(); fi++ {
+						f := st.Field(fi)
+						if set[f] || !types.Implements(f.Type(), node) {
+							continue
+						}
+						if _, isSlice := f.Type().Underlying().(*types.Slice); isSlice {
+							continue
+						}
+						k := fieldKey(lt, f)
+						if _, have := out[k]; have {
+							continue
+						}
+						if !p.storeOnEveryPath(fd, as, ret, holder, f) {
+							out[k] = fmt.Sprintf("%s can return the node without it and without an error (%s)", FuncName(p.Parser, fd), p.Pos(ret.Pos()))
+						}
+					}
+					return true
+				})
+			}
+			return true
+		})
+	}
+	return out
+}
+
+// storeOnEveryPath: between the statement `from` and the return `ret` every path passes a store to holder.f - a
+// statement that assigns it and stands, before the return, directly in a block that encloses the return.
+func (p *Program) storeOnEveryPath(fd *ast.FuncDecl, from ast.Stmt, ret *ast.ReturnStmt, holder types.Object, f *types.Var) bool {
+	info := p.Info
+	found := false
+	ast.Inspect(fd.Body, func(m ast.Node) bool {
+		as, ok := m.(*ast.AssignStmt)
+		if !ok || found || as.Pos() < from.End() || as.End() > ret.Pos() {
+			return !found
+		}
+		stores := false
+		for _, l := range as.Lhs {
+			if sel, ok := ast.Unparen(l).(*ast.SelectorExpr); ok && selField(info, sel) == f && objOf(info, sel.X) == holder {
+				stores = true
+			}
+		}
+		if !stores {
+			return true
+		}
+		// the statement level of the store: the store itself, or the if/switch whose init clause it is
+		var level ast.Node = as
+		if par := p.Parent(as); par != nil {
+			switch v := par.(type) {
+			case *ast.IfStmt:
+				if v.Init == ast.Stmt(as) {
+					level = v
+				}
+			case *ast.SwitchStmt:
+				if v.Init == ast.Stmt(as) {
+					level = v
+				}
+			}
+		}
+		container := p.Parent(level)
+		switch container.(type) {
+		case *ast.BlockStmt, *ast.CaseClause:
+		default:
+			return true
+		}
+		// the container encloses the return (or the return sits inside the if whose init stored the field)
+		encl := false
+		if level != ast.Node(as) && ret.Pos() >= level.Pos() && ret.End() <= level.End() {
+			encl = true
+		}
+		p.ancestors(ret, fd, func(anc, _ ast.Node) bool {
+			if anc == container {
+				encl = true
+			}
+			return true
+		})
+		if container == ast.Node(fd.Body) {
+			encl = true
+		}
+		if encl {
+			found = true
+		}
+		return !found
+	})
+	return found
+}
+
 // reviewedOptionalFields: fields a production leaves unset on a success path.
 var reviewedOptionalFields = map[string]string{
 	"ProjectColumn.X":      "reviewed: only set when the column is followed by '='",
